@@ -305,6 +305,14 @@ func Spec() *mon.Spec {
 			{Name: "grid", Quick: gridSize(), Thorough: gridSize(), Run: runGrid},
 			{Name: "generated", Quick: 5000, Thorough: 100000, Run: runGenerated},
 		},
-		Floors: map[string]int{},
+		Floors: map[string]int{
+			"compared": 2500, "grid_points_compared": 1400, "events_compared": 20000, "distinct_nontrivial": 800,
+			"grid_constructs_x_exits": 100,
+			"k_tmp-restored:exception": 400, "k_tmp-restored:break": 100, "k_tmp-restored:continue": 100, "k_tmp-restored:return": 200,
+			"k_with-exit:exception": 600, "k_with-exit:break": 90, "k_with-exit:continue": 90, "k_with-exit:return": 200,
+			"k_exit-with-defers:exception": 700, "k_exit-with-defers:break": 80, "k_exit-with-defers:continue": 80, "k_exit-with-defers:return": 200,
+			"k_deferred-exception-reported": 500, "k_deferred-exception-suppressed": 300, "k_deferred-ran-after-failed": 200,
+			"k_deferred-failed-after-failed": 60, "k_element-restored": 800, "k_with-several-restores": 1000, "k_exit-with-several-defers": 1000,
+		},
 	}
 }
